@@ -30,3 +30,10 @@ package bundler
 // (asset template, or entry template for a copied entry point) that is substituted to produce the name.
 //@ flow hash-decision-template C18: func=(*scanner).processScannedFiles ; in=bundler ; site=call HasPlaceholder ; argpath=0:phi:template
 //@ flow name-template C18: func=(*scanner).processScannedFiles ; in=bundler ; site=call SubstituteTemplate ; argpath=0:phi:template
+
+// ----------------------------------------------------------------------------------------------
+// C08: the runtime AST cache is process-global and shared by concurrent builds. The cached AST may depend on
+// the build's options only through runtimeCacheKey; otherwise whichever build parses first decides what a
+// later build with different options gets (an arrival-order dependence). Every use of `options` in
+// parseRuntime must be a field read stored straight into the key.
+//@ keyed runtime-cache-key C08: func=(*runtimeCache).parseRuntime ; in=bundler ; param=options ; key=runtimeCacheKey
